@@ -24,6 +24,12 @@ LEAF = 'mithril_stm::membership_commitment::merkle_tree::leaf::MerkleTreeConcate
 SB = 'mithril_common::protocol::signer_builder::SignerBuilder'
 
 
+TRUNCATING = ['*::Iterator::take', '*::Iterator::skip', '*::Iterator::step_by', '*::Iterator::filter', '*::Iterator::filter_map', '*::Iterator::take_while',
+              '*::Iterator::skip_while', '*::split_at', '*::split_first', '*::split_last', '*::truncate', '*::index_mut', '*::iter_mut', '*::get_mut',
+              '*::fill', '*::copy_from_slice', '*::swap', '*::first', '*::last', '*::chunks*', '*::windows',
+              '<[*] as std::ops::index::Index>::index', '<[*] as std::ops::Index>::index', 'std::slice::*::get', '*::to_ascii_lowercase', '*::to_ascii_uppercase']
+
+
 def has(og, pat):
     return any(glob_match(pat, o) for o in og)
 
@@ -118,6 +124,51 @@ def run(ctx):
                 R.ok('b', 'R4', '%s::partial_cmp delegates to cmp' % fn_short(adt), '', pc[0].loc())
             else:
                 R.violation('b', 'R4', '%s::partial_cmp delegates to cmp' % fn_short(adt), 'partial_cmp:%s' % fn_short(adt), str(names[:4]), pc[0].loc())
+
+    # the order on keys is injective: the comparator compares the complete canonical encodings
+    VK = 'mithril_stm::signature_scheme::bls_multi_signature::verification_key::BlsVerificationKey'
+    kc = ctx.try_fn('b', '<' + VK + ' as std::cmp::Ord>::cmp')
+    if kc is not None:
+        seen, work = {}, [kc]
+        while work:
+            f = work.pop()
+            if id(f) in seen:
+                continue
+            seen[id(f)] = f
+            for g in f.family():
+                for c in g.body.calls():
+                    for n in c.names():
+                        if n.startswith('mithril_stm::') or n.startswith('<mithril_stm::'):
+                            for h in ws.find_all(n):
+                                if h.unit.crate == 'mithril_stm' and not h.name.endswith('::to_bytes') and id(h) not in seen:
+                                    work.append(h)
+        enc, lossy = [], []
+        for f in seen.values():
+            for g in f.family():
+                body = g.body
+                for bi, b in enumerate(body.blocks):
+                    if b.cleanup:
+                        continue
+                    for (ln, pl, rv) in b.stmts:
+                        if rv[0] == 'bin' and rv[1] in ('BitAnd', 'BitOr', 'BitXor', 'Shl', 'Shr', 'Rem', 'Div', 'ShlUnchecked', 'ShrUnchecked'):
+                            lossy.append('%s at line %s' % (rv[1], ln))
+                        if rv[0] == 'un' and rv[1] == 'Not' and rv[2][0] in ('copy', 'move') and body.lty(rv[2][1][0]) != 'bool':
+                            lossy.append('bitwise Not at line %s' % ln)
+                        if pl[1] and any((isinstance(pe, tuple) and pe[0] in ('i', 'ci')) or pe == 'i' for pe in pl[1]):
+                            lossy.append('element write at line %s' % ln)
+                    if b.term[0] == 'call':
+                        c = b.term[1]
+                        if any(n.endswith('BlsVerificationKey::to_bytes') for n in c.names()):
+                            enc.append(c)
+                        if any(glob_match(pt, n) for n in c.names() for pt in TRUNCATING) and not (
+                                c.best().endswith('Index>::index') and ('Range' not in (c.gargs or '') or 'RangeFull' in (c.gargs or ''))):
+                            lossy.append('%s at line %s' % (fn_short(c.best()), c.line))
+        inst = 'Ord for BlsVerificationKey compares the complete canonical encodings of both keys (no masking / truncation)'
+        if len(enc) >= 2 and not lossy:
+            R.ok('b', 'R5', inst, '%d fns, %d encodings compared' % (len(seen), len(enc)), kc.loc())
+        else:
+            R.violation('b', 'R5', inst, 'vk_ord:complete-encoding', 'to_bytes sites %d; lossy operations in the comparator: %s - two distinct registered keys that '
+                        'compare Equal collapse into one BTreeSet entry (a party silently disappears, depending on arrival order)' % (len(enc), lossy[:5]), kc.loc())
     ctx.field_cover('b', LEAF, LEAF + '::to_bytes', ret_consumer=True, desc='(leaf byte encoding)')
     conv = [f for f in ws.find_all('<std::option::Option as std::convert::From>::from') if f.unit.crate == 'mithril_stm' and 'ClosedRegistrationEntry' in f.body.lty(1)
             and 'MerkleTreeConcatenationLeaf' in f.ret]
